@@ -186,6 +186,16 @@ pub fn generate(args: &Args) -> Vec<String> {
         ("(L (dview 0 (alt (text 97)) (alt (el 98 (A) (C)))) (setnow 0 1))", "0,0", "0=2,0=3"),
     ];
     for (f, st, ws) in fam_sn { l.push(format!("view run {f} {st} {ws}")); }
+    // pieces of view written with the `view!` MACRO (compiled into the harness; `(mx k g)`, each equivalent to a builder-made
+    // view): what the macro emits must stay in step with the signals like everything else — alone, inside elements and
+    // regions, next to builder-made parts
+    for k in 0..MX_SITES {
+        for (st, ws) in [("0,0", "0=1,0=2,0=3,0=7,0=4,1=1,0=5"), ("3,1", "0=0,0=6,1=0,0=9")] {
+            l.push(format!("view run (L (mx {k} 0)) {st} {ws}"));
+            l.push(format!("view run (L (el 100 (A) (C (text 97) (mx {k} 0) (dtext 1))) (mx {} 1)) {st} {ws}", (k + 1) % MX_SITES));
+            l.push(format!("view run (L (dview 1 (alt (mx {k} 0)) (alt (text 98) (mx {} 0))) (show 0 (mx {k} 1))) {st} {ws}", (k + 3) % MX_SITES));
+        }
+    }
     let n = if thorough { 150_000 } else { 4_000 };
     for i in 0..n {
         let nsig = 1 + rng.below(3);
